@@ -20,6 +20,9 @@ structure MOpQ where
   tr : Bool
 deriving Repr, Inhabited
 
+/-- The space-group part `(R, t)`. -/
+def MOpQ.op (o : MOpQ) : OpQ := ⟨o.rot, o.trans⟩
+
 structure MagTruthQ where
   /-- UNI number of the generating magnetic space group -/
   uni : Nat
